@@ -96,6 +96,14 @@ def sh(cmd, timeout=None, cwd=None, env=None, inp=None):
     return p.returncode, p.stdout.decode("utf-8", "replace")
 
 
+def _json_int(o):
+    """integers of any kind the implementation may hand back (NumPy fixed-width scalars when the caller's keys were
+    NumPy scalars) cross the protocol as their integer VALUE"""
+    if hasattr(o, "__index__"):
+        return int(o.__index__())
+    raise TypeError("Object of type %s is not JSON serializable" % o.__class__.__name__)
+
+
 class LeanLock(object):
     def __enter__(self):
         os.makedirs(os.path.join(LEAN, ".lake"), exist_ok=True)
@@ -207,7 +215,7 @@ class Driver(object):
     def run(self, reqs, timeout=3000):
         if not reqs:
             return []
-        data = "\n".join(json.dumps(r, separators=(",", ":")) for r in reqs) + "\n"
+        data = "\n".join(json.dumps(r, separators=(",", ":"), default=_json_int) for r in reqs) + "\n"
         if os.path.exists(DRIVER):
             cmd = [DRIVER]
         else:
